@@ -164,8 +164,15 @@ class Model:
         if rend is None or rend['kind'] == 'run_cancel' or not nonf:
             return a
         t_all, tc, texp = a.t_all, a.tc, a.texp
+        # a critical job that is NOT forever and raised can never be part of a
+        # success: its own end is that raise.  Only a *forever* critical job
+        # raising in the very instant of the last regular completion is a tie.
+        tc_regular = min((e['t'] for e in a.crit_raises if not self.forever(e['who'])), default=None)
+        tc_forever = min((e['t'] for e in a.crit_raises if self.forever(e['who'])), default=None)
+        a.tc_regular = tc_regular
         allowed = set()
-        if t_all is not None and (tc is None or tc >= t_all) and (texp is None or t_all <= texp):
+        if t_all is not None and tc_regular is None and (tc_forever is None or tc_forever >= t_all) \
+                and (texp is None or t_all <= texp):
             allowed.add('success')
         if tc is not None and (t_all is None or tc <= t_all) and (texp is None or tc <= texp):
             allowed.add('critical')
